@@ -2,6 +2,10 @@
 # Regenerates /verif/MANIFEST.json from the table below (single source of truth for the interface).
 import json
 CLAIMED = {
+ "C02": dict(level="exploration", design="DESIGN.md §4.4",
+   technique="deterministic simulation of successive writers appending revisions to an append-only medium, crash points at every revision boundary; log-replay ordering check against a 'newest mention wins' map model",
+   text="Seeded update histories (1-8 revisions, 3-12 object numbers; classic tables and xref streams with arbitrary subsection / Index splits, W widths incl. width 0, filters; objects direct, compressed in one or two object streams, freed with generation+1, reused; Size growth; moving Root) written by the harness's independent writer and cross-checked by its strict reader; the library opens the medium after every append in strict+uncached and tolerant+cached mode and every object number below /Size plus the trailer is compared with the model. Sampling, not proof.",
+   note="Trusted: the harness writer + strict reader. Torn final appends, hybrid files and generation-rule violations are outside the statement."),
  "C09": dict(level="exploration", design="DESIGN.md §4.3",
    technique="deterministic simulation of a store (put/read/sync/restart) with injected save failures and refusing sinks; step-by-step refinement against a map model, durability and prefix checks after every successful save",
    text="Seeded operation histories over {create, update of base objects (direct and compressed) and of earlier references, promise, fulfil, read, save, failing save (unfulfilled promise, stream still in the source file, /dev/full, missing directory), dirty restart} on corpus and generated base files (classic/stream xref, object streams, junk before the header, caches on/off), always closed by replace-offender + fulfil + save + reload. After every step: read-your-writes through raw and typed paths; after every successful save: previous bytes are a prefix, every written reference (passed and handed) resolves to the model's value in a fresh reload, sampled untouched objects and stream data unchanged. Fault-free and fault batches counted separately. Sampling, not proof.",
